@@ -30,7 +30,21 @@ def cases_for(ctx):
                 sel.append((i, ["ccert", "calg%d" % a], 3))
             if "PSK" in i:
                 sel.append((i, ["psk"], 1))
-    return [{"name": "%s[%s]" % (p, "+".join(f)), "parrot": p, "flags": f, "from": k} for p, f, k in sel]
+    out = [{"name": "%s[%s]" % (p, "+".join(f)), "parrot": p, "flags": f, "from": k} for p, f, k in sel]
+    # post-handshake phase (server sequences x client->server transport x Read/Write/Close) on TLS 1.3 cases
+    for c in out:
+        if c["flags"] == [] and (c["parrot"] in ("Chrome-133", "Firefox-120") or not ctx.quick):
+            c["post"] = 3 if (c["parrot"] == "Chrome-133" and not ctx.quick) else 2
+        if c["parrot"] == "Firefox-120" and c["flags"] == ["sku"] and ctx.quick:
+            c["post"] = 2
+        if c["flags"] == ["v12"] and (c["parrot"] == "Chrome-58" or (c["parrot"] == "Firefox-120" and not ctx.quick)):
+            c["recs"] = True          # raw records in place of the server's Finished record / after the handshake
+    # the same raw records under every TLS <= 1.2 cipher suite class (AEAD with explicit nonce, AEAD without, CBC, 3DES)
+    suites = ["cca8", "c013"] if ctx.quick else ["c02f", "c030", "cca8", "c013", "009c", "002f", "000a"]
+    for p in (["Chrome-58"] if ctx.quick else ["Chrome-58", "Firefox-120", "iOS-14"]):
+        for cs in suites:
+            out.append({"name": "%s[v12+cs=%s]" % (p, cs), "parrot": p, "flags": ["v12", "cs=" + cs], "from": 99, "recs": True})
+    return out
 
 
 def run(ctx):
@@ -38,6 +52,8 @@ def run(ctx):
     return "exploration", cov, [
         "only STRUCTURED hostile input is explored: one grammar-node mutation or one inserted message per connection, derived from captured real flights; arbitrary byte strings, raw record streams and coverage-guided fuzzing are not covered by this technique family",
         "for a CompressedCertificate the operators are applied both to the container and to the Certificate message inside it; the latter is then compressed correctly (declared length = real length) by the harness's server role with an algorithm the parrot advertises (thorough: each of them)",
+        "post-handshake phase: after a TLS 1.3 handshake + ping/pong the server sends every sequence (bounded length) over {KeyUpdate requested / not requested, NewSessionTicket (the connection's ticket again, with a KeyUpdate(not requested) in the same record to keep the key schedules in step), application data, a record that does not authenticate, close}, never reads again, the client's outgoing direction is ok / blocked until the deadline / failing, then Read (until an error), Write, Close; Close is allowed the library's own 5 s close_notify write allowance",
+        "raw records: content types {0,20,21,22,23,24,255} x body 0..20 bytes in place of the Finished record after ChangeCipherSpec (TLS 1.2, one case per cipher suite class) and right after the handshake",
         "mutations are applied to the plaintext handshake message inside the hooked in-package server (verifOutgoing), so the server transcript and record protection stay consistent; the record layer itself is not mutated",
         "the message layout of a case is the same in every connection (fixed PKI, RSA leaf); TLC checks this on two captures and on every live message it judges",
         "deadline verdicts: transport deadline %d ms, tolerance 1000 ms (TLA+ SlackMs), watchdog 3 s later; a row that is late or hung in the parallel pass is executed again calmly and judged again, a timing rejection must reproduce in a fresh process; allocation verdicts: bytes allocated by the whole process during one serial connection vs the untouched flight + 1 MiB (TLA+ AllocSlackKB)" % cov["deadline_ms"],
